@@ -87,8 +87,9 @@ class Tape:
 
     def qblanks(self, name, p=0.3):
         """an optional position inside a quantity: as blanks(), or a block comment (skipped like blanks)"""
-        return self.pick(name, [("none", ""), ("1", " "), ("2", "  "), ("tab", "\t"), ("block-comment", " [- c -]")],
-                         [1 - p, p * 0.65, p * 0.2, p * 0.1, p * 0.05])
+        return fill(self, self.pick(name, [("none", ""), ("1", " "), ("2", "  "), ("tab", "\t"),
+                                           ("block-comment", " \x01"), ("block-comment-glued", "\x01")],
+                                    [1 - p, p * 0.62, p * 0.2, p * 0.1, p * 0.05, p * 0.03]))
 
     def flip(self, name, p=0.5):
         return self.pick(name, [("no", False), ("yes", True)], [1 - p, p])
@@ -98,6 +99,52 @@ class Tape:
         if not self.plain:
             self.r.shuffle(xs)
         return xs
+
+
+# ---------------------------------------------------------------------------------------------
+# comments: \x01 = a block comment, \x02 = a line comment (to the end of the line), \x03 = a block
+# comment that may span two lines.  Decorations: 0-4 extra dashes after `[-` and before `-]`
+# (`[-- x --]`, `[--- x ---]`, `[--]`), `-`, `]`, `[-` inside, extra dashes after `--`.
+
+DASHES = [("0", 0), ("1", 1), ("2", 2), ("3", 3), ("4", 4)]
+DASH_W = [0.5, 0.15, 0.15, 0.1, 0.1]
+
+
+def block_comment(t, two_lines=False):
+    lead = t.pick("comment.block-extra-dashes-after-open", DASHES, DASH_W)
+    trail = t.pick("comment.block-extra-dashes-before-close", DASHES, DASH_W)
+    bodies = [("words", " aside "), ("word-glued", "x"), ("empty", ""), ("with-dash", " a-b - c "),
+              ("with-bracket", " a ] b "), ("with-open-marker", " a [- b "), ("with-markers", " @x{1} ")]
+    w = [0.4, 0.12, 0.1, 0.12, 0.1, 0.08, 0.08]
+    if two_lines:
+        bodies[0] = ("2-lines", " an\naside ")
+    body = t.pick("comment.block-body", bodies, w)
+    return "[-" + "-" * lead + body + "-" * trail + "-]"
+
+
+def line_comment(t):
+    extra = t.pick("comment.line-extra-dashes", DASHES, [0.6, 0.15, 0.1, 0.08, 0.07])
+    body = t.pick("comment.line-body", [("words", " a remark"), ("glued", "x"), ("with-markers", " remark @x{1}"),
+                                        ("with-dashes", " -- more --"), ("with-block-open", " see [- here")],
+                  [0.5, 0.15, 0.15, 0.1, 0.1])
+    return "--" + "-" * extra + body
+
+
+def fill(t, s):
+    """replace the comment placeholders of a spelling pattern"""
+    if "\x01" not in s and "\x02" not in s and "\x03" not in s:
+        return s
+    out = []
+    for ch in s:
+        if ch == "\x01":
+            out.append(block_comment(t))
+        elif ch == "\x03":
+            out.append(block_comment(t, two_lines=True))
+        elif ch == "\x02":
+            out.append(line_comment(t))
+        else:
+            out.append(ch)
+    return "".join(out)
 
 
 # ---------------------------------------------------------------------------------------------
@@ -304,19 +351,19 @@ def sep(t, allow_wrap=True, allow_comment=True, glue_ok=True):
         opts += [("wrap", "\n"), ("blank+wrap", " \n"), ("wrap+indent", "\n  ")]
         w += [0.08, 0.02, 0.02]
         if allow_comment:
-            opts += [("line-comment+wrap", " -- a remark\n")]
+            opts += [("line-comment+wrap", " \x02\n")]
             w += [0.03]
             if glue_ok:
-                opts += [("line-comment-glued+wrap", "-- remark @x{1}\n")]
+                opts += [("line-comment-glued+wrap", "\x02\n")]
                 w += [0.01]
     if allow_comment:
-        opts += [("block-comment", " [- aside -] "), ("block-comment-right-glued", " [- aside -]"),
-                 ("block-comment-2-lines", " [- an\naside -] ")]
+        opts += [("block-comment", " \x01 "), ("block-comment-right-glued", " \x01"),
+                 ("block-comment-2-lines", " \x03 ")]
         w += [0.04, 0.01, 0.02]
         if glue_ok:
-            opts += [("block-comment-left-glued", "[- aside -] ")]
+            opts += [("block-comment-left-glued", "\x01 ")]
             w += [0.01]
-    return t.pick("step.separator", opts, w)
+    return fill(t, t.pick("step.separator", opts, w))
 
 
 def print_step(items, t, ext, mode):
@@ -325,6 +372,9 @@ def print_step(items, t, ext, mode):
     for i, it in enumerate(items):
         k = it[0]
         if k == "p":
+            prev = out[-1][-1:] if out else ""
+            if (prev.isalnum() or prev in "})") and t.flip("step.comment-glued-on-both-sides", 0.05):
+                out.append(block_comment(t))
             out.append(print_word(it[1], t))
             continue
         if not first:
@@ -357,8 +407,9 @@ def print_text_block(lines, t):
 
 
 def trailing(t, name):
-    return t.pick(name, [("none", ""), ("blank", " "), ("line-comment", " -- note"), ("block-comment", " [- note -]")],
-                  [0.8, 0.08, 0.08, 0.04])
+    return fill(t, t.pick(name, [("none", ""), ("blank", " "), ("line-comment", " \x02"), ("block-comment", " \x01"),
+                                 ("line-comment-glued", "\x02"), ("block-comment-glued", "\x01")],
+                          [0.76, 0.08, 0.07, 0.04, 0.03, 0.02]))
 
 
 def print_meta_line(key, value, t):
@@ -407,9 +458,9 @@ def print_frontmatter(meta, t):
 
 
 BLOCK_SEPS = [("blank-line", "\n\n"), ("2-blank-lines", "\n\n\n"), ("blank-line-with-blanks", "\n  \n"),
-              ("blank-line-with-tab", "\n\t\n"), ("comment-only-line", "\n-- between blocks\n"),
-              ("blank+comment-line+blank", "\n\n-- between blocks\n\n"), ("block-comment-line", "\n[- between -]\n"),
-              ("2-line-block-comment", "\n[- block\ncomment -]\n\n"), ("blank+indented-comment", "\n\n   -- c\n")]
+              ("blank-line-with-tab", "\n\t\n"), ("comment-only-line", "\n\x02\n"),
+              ("blank+comment-line+blank", "\n\n\x02\n\n"), ("block-comment-line", "\n\x01\n"),
+              ("2-line-block-comment", "\n\x03\n\n"), ("blank+indented-comment", "\n\n   \x02\n")]
 BLOCK_SEP_W = [0.55, 0.08, 0.06, 0.03, 0.08, 0.06, 0.05, 0.05, 0.04]
 
 
@@ -440,17 +491,17 @@ def print_spec(spec, t):
             blocks.append((print_text_block(b["lines"], t), False))
         else:
             blocks.append((print_step(b["items"], t, ext, mode), False))
-    body = t.pick("doc.leading", [("none", ""), ("blank-line", "\n"), ("comment-line", "-- recipe\n")], [0.85, 0.08, 0.07]) \
+    body = fill(t, t.pick("doc.leading", [("none", ""), ("blank-line", "\n"), ("comment-line", "\x02\n")], [0.85, 0.08, 0.07])) \
         if not fm else ""
     for i, (txt, single) in enumerate(blocks):
         if i:
             if (single or blocks[i - 1][1]) and t.flip("doc.single-newline-around-single-line-block", 0.5):
                 body += "\n"
             else:
-                body += t.pick("doc.block-separator", BLOCK_SEPS, BLOCK_SEP_W)
+                body += fill(t, t.pick("doc.block-separator", BLOCK_SEPS, BLOCK_SEP_W))
         body += txt
-    body += t.pick("doc.end", [("nothing", ""), ("newline", "\n"), ("2-newlines", "\n\n"), ("comment", "\n-- the end"),
-                               ("blanks", "  ")], [0.3, 0.4, 0.1, 0.1, 0.1])
+    body += fill(t, t.pick("doc.end", [("nothing", ""), ("newline", "\n"), ("2-newlines", "\n\n"), ("comment", "\n\x02"),
+                                       ("blanks", "  "), ("block-comment", " \x01")], [0.3, 0.38, 0.1, 0.1, 0.07, 0.05]))
     text = fm + body
     if t.flip("doc.crlf", 0.08):
         text = text.replace("\n", "\r\n")
